@@ -51,6 +51,8 @@ type c01State struct {
 	heldArgs [][3]int64
 }
 
+var c01Prefixes = textPrefixes([]string{"0123456789", "-", "2021-01-01"})
+
 func c01Fail(w *rt.W, key string, y int64, m, d int, path, got, want string) {
 	w.Fail(key, "roundtrip", rt.Args("y", y, "m", m, "d", d, "limit", date.MaxInputLength, "path", path), got, want,
 		"output/input path "+path+" disagrees with the ISO 8601 reference")
@@ -145,6 +147,13 @@ func c01Case(w *rt.W, st *c01State, y int64, m, d int, slow bool) {
 		pre, _ := date.DefaultFormatter([]byte("x="), dt, 0)
 		if string(pre) != "x="+wantE {
 			c01Fail(w, "out-formatter-prefix", y, m, d, "DefaultFormatter(prefix,0)", string(pre), "x="+wantE)
+		}
+		for _, p := range c01Prefixes {
+			for fl, want := range []string{wantE, wantB} {
+				if pre, err := date.DefaultFormatter(append([]byte(nil), p...), dt, date.Format(fl)); err != nil || string(pre) != string(p)+want {
+					c01Fail(w, "out-formatter-prefix", y, m, d, fmt.Sprintf("DefaultFormatter(%q,%d)", p, fl), fmt.Sprint(string(pre), " err=", err), string(p)+want)
+				}
+			}
 		}
 		// the type formats itself: flags, width and precision of the verb do not change the text
 		for _, vb := range []struct{ verb, want string }{{"%s", wantE}, {"%v", wantE}, {"%e", wantE}, {"%b", wantB},
@@ -394,6 +403,14 @@ func init() {
 }
 
 func runC01(c *rt.Ctx) {
+	appenderSweep(c, func() []any {
+		var out []any
+		for _, v := range []date.Date{date.New(2024, 2, 29), date.New(1, 1, 1), date.New(9999, 12, 31), date.New(-44, 3, 15), date.New(123456789, 10, 5), date.Date{}} {
+			v := v
+			out = append(out, v, &v)
+		}
+		return out
+	}())
 	configuredEpisode() // the process has a past: failing configured Formatters and Parsers, since restored
 	c.Extra("history_before_the_streams", "an episode of failing configured Formatter/Parser variables in all five packages")
 	c.SetRule("every calendar date of years 0000-9999 is enumerated once (exhaustive) through formatter/MarshalText/String -> three parser paths for both layouts; " +
